@@ -221,9 +221,15 @@ func c13reset(w *Worker, mk func() *bufOps, h []Op, pos int, how string) {
 	if how != "Reset" && taken.s != expect {
 		w.Violate("C13 take-content", b.name+": "+how+" returned "+q(taken.s)+" but RedactableString() was "+q(expect)+" history="+historyString(h[:pos]), cs())
 	}
+	// The hidden state after Reset/Take is observed (tagged accessor) but is not a
+	// verdict: how an implementation represents "like new" is its own business.
+	// What decides is behaviour: Len, GetMode and the suffix of the history below.
 	mode, open2, valid2, l2 := b.state()
 	if mode != 0 || open2 || valid2 != 0 || l2 != 0 {
-		w.Violate("C13 not-pristine "+how, b.name+": state after "+how+" is mode="+itoa(mode)+" open="+sprint(open2)+" validUntil="+itoa(valid2)+" len="+itoa(l2)+" (a new object has 0,false,0,0); history="+historyString(h[:pos]), cs())
+		w.Count("hidden_state_differs_from_new_object_after_"+how, 1)
+	}
+	if gm := b.getMode(); gm != 0 {
+		w.Violate("C13 mode-after "+how, b.name+": GetMode() is "+itoa(gm)+" after "+how+", a new object reports 0; history="+historyString(h[:pos]), cs())
 	}
 	if n := b.length(); n != 0 {
 		w.Violate("C13 not-pristine "+how, b.name+": Len()="+itoa(n)+" after "+how, cs())
